@@ -11,6 +11,7 @@ from hgv.runner import Result, Viol
 from hgv.worker import HarnessError
 
 ID = "C14"
+ASAN_THOROUGH = True   # thorough tier runs against the AddressSanitizer build
 LEVEL = "fault_enumeration"
 RULE = ("Programs of 2-6 chained harness nodes (a self-ticking source first), optionally with a sub-program nested 1-2 deep, a map_ over a "
         "scripted dictionary whose children are alive when the fault hits, or a switch_ with live branch; a fault plan of 1-2 scripted "
